@@ -4,3 +4,9 @@ import PysamlModel.Props.C04
 #print axioms C04.C04_recipient
 #print axioms C04.C04_exact
 #print axioms C04.C04_model_meets_spec
+#print axioms Sp.processFactory_identity_inv
+#print axioms C04.verify_visible_accepted
+#print axioms C04.visible_accepted_factory
+#print axioms C04.C04_audience_factory
+#print axioms C04.C04_destination_factory
+#print axioms C04.C04_recipient_factory
